@@ -303,6 +303,10 @@ def execute(job, tier, builddir, maxw, solver, log):
             res["errors"].append("cbmc timed out after %ds" % job.timeout)
             return res
         r1, m1, st1 = parse_cbmc_json(out)
+        if st1 == "error" or any(x.get("status") == "ERROR" for x in (r1 or [])):
+            res["status"] = "tool-error"
+            res["errors"].append("cbmc reported an internal error (e.g. solver out of memory): " + "; ".join(m for m in m1 if "memory" in m or "rror" in m)[:300])
+            return res
         if r1 is None or st1 is None or (not r1 and st1 != "success"):
             res["status"] = "tool-error"
             res["errors"].append("cbmc gave no result list (rc=%s): %s" % (rc, (err or out)[-1500:]))
